@@ -6,6 +6,7 @@ Paths are mostly grown by walking the generated document so that they select som
 import random
 
 KEYS = ["a", "b", "c", "d", "x", "y", "z", "k"]
+ODD_KEYS = ["", "0", "-1", "a.b", "a[0]", "$", "\u00e9", " ", "x-y", "*"]      # valid JSON member names all the same
 RESERVED_KEYS = ["parent", "wc", "rec", "shape", "wildcard", "gwc", "recursive", "generic_wildcard"]
 SCALARS = [None, True, False, 0, 1, 2, -1, 3, 0.0, 1.5, -2.5, "", "a", "x", "12", "-3", "abc"]
 FNS = ["int", "len", "truth", "not", "neg", "abs", "first", "boom_if_str", "ident"]
@@ -33,6 +34,9 @@ def gen_doc(rng, depth=0, maxdepth=4, top=True):
         if rng.random() < 0.12:
             # keys that are also attribute names of the path builder
             keys[rng.randrange(len(keys))] = rng.choice(RESERVED_KEYS)
+        elif rng.random() < 0.07:
+            # empty, index-like, punctuated and non-ASCII member names
+            keys[rng.randrange(len(keys))] = "" if rng.random() < 0.3 else rng.choice(ODD_KEYS)
         return {k: gen_doc(rng, depth + 1, maxdepth, False) for k in keys}
     return [gen_doc(rng, depth + 1, maxdepth, False) for _ in range(n)]
 
@@ -65,6 +69,7 @@ PROFILES = {
     "filter": dict(key=3, idx=2, slice=1, tuple=1, wc=3, iwc=3, gwc=2, rec=2, par=0, filt=6),
     "parent": dict(key=4, idx=3, slice=1, tuple=1, wc=2, iwc=2, gwc=2, rec=2, par=7, filt=2),
     "filterpar": dict(key=4, idx=2, slice=1, tuple=1, wc=2, iwc=2, gwc=1, rec=1, par=5, filt=6),
+    "recpar": dict(key=3, idx=2, slice=1, tuple=1, wc=2, iwc=2, gwc=2, rec=5, par=5, filt=1),
     "all": dict(key=4, idx=3, slice=2, tuple=2, wc=3, iwc=3, gwc=2, rec=2, par=2, filt=3),
     "nopar": dict(key=4, idx=3, slice=2, tuple=2, wc=3, iwc=3, gwc=2, rec=2, par=0, filt=3),
     "keyidx": dict(key=6, idx=5, slice=0, tuple=0, wc=0, iwc=0, gwc=0, rec=0, par=0, filt=0),
